@@ -1,11 +1,12 @@
 // C19 harness: the real core.TxPool over a mock chain.
-//  (i)   sequential histories (adds with replacements, price changes, head events with
-//        reorganisations): after every operation the harness waits for a quiescent point,
-//        snapshots the pool internals (hook, under pool.mu) and writes the projected
-//        snapshot into a Coq case; the model must reproduce every snapshot and verdict;
-//  (ii)  model-independent monitors on every snapshot (monitors.go);
-//  (iii) concurrent histories, size-limit histories (out of the model's scope) and
-//        lifetime-eviction histories: monitors only, with a deadlock watchdog.
+//
+//	(i)   sequential histories (adds with replacements, price changes, head events with
+//	      reorganisations): after every operation the harness waits for a quiescent point,
+//	      snapshots the pool internals (hook, under pool.mu) and writes the projected
+//	      snapshot into a Coq case; the model must reproduce every snapshot and verdict;
+//	(ii)  model-independent monitors on every snapshot (monitors.go);
+//	(iii) concurrent histories, size-limit histories (out of the model's scope) and
+//	      lifetime-eviction histories: monitors only, with a deadlock watchdog.
 package main
 
 import (
@@ -40,7 +41,9 @@ var (
 
 type logHook struct{}
 
-func (logHook) Levels() []logrus.Level { return []logrus.Level{logrus.ErrorLevel, logrus.FatalLevel, logrus.PanicLevel} }
+func (logHook) Levels() []logrus.Level {
+	return []logrus.Level{logrus.ErrorLevel, logrus.FatalLevel, logrus.PanicLevel}
+}
 func (logHook) Fire(e *logrus.Entry) error {
 	if strings.Contains(e.Message, "Panicked") {
 		panicCount.Add(1)
@@ -202,4 +205,3 @@ func (c *Case) summary() any {
 	}
 	return c
 }
-
